@@ -49,7 +49,7 @@ def lrc_obligations(ctx, queries, prefix=""):
 
 
 def plan(ctx):
-    obs = lrc_obligations(ctx, ["soundness", "completeness", "patterns", "consistency"])
+    obs = lrc_obligations(ctx, ["soundness", "completeness", "patterns"])
     return {
         "obligations": obs,
         "precheck": lrc_precheck,
